@@ -31,19 +31,20 @@ def repo_clean():
     return out.strip() == ''
 
 
-def do_import(prop, src):
+def do_import(prop, src, offset=0):
     src = Path(src)
     meta = json.loads((src / 'meta.json').read_text()) if (src / 'meta.json').exists() else {'mutations': []}
     for diff in sorted(src.glob('M*.diff')):
         m = diff.stem
-        dst = VERIF / 'seeded' / ('%s-%s' % (prop, m))
+        new = 'M%d' % (int(m[1:]) + offset)
+        dst = VERIF / 'seeded' / ('%s-%s' % (prop, new))
         dst.mkdir(parents=True, exist_ok=True)
         shutil.copy(diff, dst / 'patch.diff')
         demo = src / ('%s_demo.py' % m)
         if demo.exists():
             shutil.copy(demo, dst / 'demo.py')
         info = dict(([x for x in meta.get('mutations', []) if x.get('id') == m] or [{}])[0])
-        info.update({'property': prop, 'id': '%s-%s' % (prop, m),
+        info.update({'property': prop, 'id': '%s-%s' % (prop, new), 'round': 1 + offset // 2,
                      'origin': 'fresh sub-agent given only the property text and a scratch worktree of /repo'})
         (dst / 'meta.json').write_text(json.dumps(info, indent=1))
         print('imported', dst)
@@ -107,7 +108,7 @@ def do_run(prop, muts, also, tier):
 
 def main(argv):
     if argv[0] == 'import':
-        do_import(argv[1], argv[2])
+        do_import(argv[1], argv[2], int(argv[3]) if len(argv) > 3 else 0)
         return 0
     if argv[0] == 'run':
         prop = argv[1]
